@@ -176,7 +176,7 @@ def gen_doc(rng: random.Random, size: int = 4, zones: bool = True, sections: boo
     d = {"name": rng.choice(["DOC", "My_Doc", "_x9"]), "gv": None, "fm": None, "meta": [], "sep": False, "nodes": [], "trailing": []}
     if frontmatter and rng.random() < 0.15:
         d["fm"] = rng.choice(["name: Agent (Specialist)\ndescription: x: y", "a: 1", "title: \"q\"\n# yaml comment"])
-    if rng.random() < 0.2 and d["fm"] is None:
+    if rng.random() < 0.2:
         d["gv"] = rng.choice(["5.1.0", "6", "6.0.0-beta.1"])
     if meta and rng.random() < 0.6:
         for _ in range(rng.randint(1, 3)):
